@@ -40,6 +40,7 @@ import EPV.Gen.Noh
 import EPV.Gen.Cog19
 import EPV.Props.C07.Hydro
 import EPV.Tactics
+import EPV.Lemmas.Bridge.EosTac
 
 set_option linter.all false
 
@@ -70,27 +71,9 @@ theorem res_ok_iff (q : ResPressureIdeal_res.P) (ρ e D : ℝ) : ResPressureIdea
     split_ifs at h <;> first
       | epv_absurd
       | (simp only [epv_cond] at *
-         exact ⟨by assumption, by linarith, by linarith, by linarith, by tauto, by assumption⟩)
+         exact ⟨by epv_eos_fact, by epv_eos_fact, by epv_eos_fact, by epv_eos_fact, by tauto, by epv_eos_fact⟩)
   · rintro ⟨hγ, hu, hρ0, hp, hs, hρ⟩
-    have c0 : ¬ ResPressureIdeal_res.c0 q ρ e D := by simpa only [epv_cond] using hγ
-    have c1 : ¬ ResPressureIdeal_res.c1 q ρ e D := by simp only [epv_cond]; linarith
-    have c2 : ¬ ResPressureIdeal_res.c2 q ρ e D := by simp only [epv_cond]; linarith
-    have c3 : ¬ ResPressureIdeal_res.c3 q ρ e D := by simp only [epv_cond]; linarith
-    have c5 : ¬ ResPressureIdeal_res.c5 q ρ e D := by simp only [epv_cond]; exact hρ0.ne'
-    have c9 : ¬ ResPressureIdeal_res.c9 q ρ e D := by simpa only [epv_cond] using hρ
-    simp only [epv_tree, c0, c1, c2, c3, c5, c9, if_false]
-    rcases hs with h | ⟨h, h'⟩ | ⟨h, h'⟩
-    · have c4 : ResPressureIdeal_res.c4 q ρ e D := by simpa only [epv_cond] using h
-      simp only [c4, if_true]
-    · have c4 : ¬ ResPressureIdeal_res.c4 q ρ e D := by simp only [epv_cond, h]; norm_num
-      have c6 : ResPressureIdeal_res.c6 q ρ e D := by simpa only [epv_cond] using h
-      have c7 : ResPressureIdeal_res.c7 q ρ e D := by simpa only [epv_cond] using h'
-      simp only [c4, c6, c7, if_true, if_false]
-    · have c4 : ¬ ResPressureIdeal_res.c4 q ρ e D := by simp only [epv_cond, h]; norm_num
-      have c6 : ¬ ResPressureIdeal_res.c6 q ρ e D := by simp only [epv_cond, h]; norm_num
-      have c8 : ResPressureIdeal_res.c8 q ρ e D := by simpa only [epv_cond] using h
-      have c7 : ResPressureIdeal_res.c7 q ρ e D := by simpa only [epv_cond] using h'
-      simp only [c4, c6, c7, c8, if_true, if_false]
+    rcases hs with h | ⟨h, h'⟩ | ⟨h, h'⟩ <;> (simp only [epv_tree]; epv_eos_ifs)
 
 /-- on every accepted request the three components are the documented jump-condition residuals -/
 theorem res_value (q : ResPressureIdeal_res.P) (ρ e D : ℝ) (h : ResPressureIdeal_res.outcome q ρ e D = .ok) :
@@ -98,24 +81,11 @@ theorem res_value (q : ResPressureIdeal_res.P) (ρ e D : ℝ) (h : ResPressureId
     ResPressureIdeal_res.F1 q ρ e D = ρ * e * (q.gamma - 1) - q.P_0 + ρ * q.u_0 * D ∧
     ResPressureIdeal_res.F2 q ρ e D = e - q.P_0 / (q.rho_0 * (q.gamma - 1)) - 1 / 2 * q.u_0 ^ 2 + q.u_0 / ρ * (q.P_0 / D) := by
   obtain ⟨hγ, hu, hρ0, hp, hs, hρ⟩ := (res_ok_iff q ρ e D).mp h
-  have c0 : ¬ ResPressureIdeal_res.c0 q ρ e D := by simpa only [epv_cond] using hγ
-  have c1 : ¬ ResPressureIdeal_res.c1 q ρ e D := by simp only [epv_cond]; linarith
-  have c2 : ¬ ResPressureIdeal_res.c2 q ρ e D := by simp only [epv_cond]; linarith
-  have c3 : ¬ ResPressureIdeal_res.c3 q ρ e D := by simp only [epv_cond]; linarith
-  have c5 : ¬ ResPressureIdeal_res.c5 q ρ e D := by simp only [epv_cond]; exact hρ0.ne'
-  have c9 : ¬ ResPressureIdeal_res.c9 q ρ e D := by simpa only [epv_cond] using hρ
-  rcases hs with h | ⟨h, h'⟩ | ⟨h, h'⟩
-  · have c4 : ResPressureIdeal_res.c4 q ρ e D := by simpa only [epv_cond] using h
-    refine ⟨?_, ?_, ?_⟩ <;> simp only [epv_tree, c0, c1, c2, c3, c5, c9, c4, if_true, if_false, epv_leaf] <;> first | rfl | ring1 | ring_nf
-  · have c4 : ¬ ResPressureIdeal_res.c4 q ρ e D := by simp only [epv_cond, h]; norm_num
-    have c6 : ResPressureIdeal_res.c6 q ρ e D := by simpa only [epv_cond] using h
-    have c7 : ResPressureIdeal_res.c7 q ρ e D := by simpa only [epv_cond] using h'
-    refine ⟨?_, ?_, ?_⟩ <;> simp only [epv_tree, c0, c1, c2, c3, c5, c9, c4, c6, c7, if_true, if_false, epv_leaf] <;> first | rfl | ring1 | ring_nf
-  · have c4 : ¬ ResPressureIdeal_res.c4 q ρ e D := by simp only [epv_cond, h]; norm_num
-    have c6 : ¬ ResPressureIdeal_res.c6 q ρ e D := by simp only [epv_cond, h]; norm_num
-    have c8 : ResPressureIdeal_res.c8 q ρ e D := by simpa only [epv_cond] using h
-    have c7 : ResPressureIdeal_res.c7 q ρ e D := by simpa only [epv_cond] using h'
-    refine ⟨?_, ?_, ?_⟩ <;> simp only [epv_tree, c0, c1, c2, c3, c5, c9, c4, c6, c7, c8, if_true, if_false, epv_leaf] <;> first | rfl | ring1 | ring_nf
+  have hg1 : q.gamma - 1 ≠ 0 := sub_ne_zero.mpr hγ
+  have hρ0' : q.rho_0 ≠ 0 := hρ0.ne'
+  rcases hs with h | ⟨h, h'⟩ | ⟨h, h'⟩ <;>
+    (refine ⟨?_, ?_, ?_⟩ <;> (simp only [epv_tree]; epv_eos_ifs; simp only [epv_leaf]) <;>
+      first | rfl | ring1 | (by_cases hD : D = 0 <;> [(subst hD; simp only [div_zero, mul_zero, add_zero]; epv_eos_field); epv_eos_field]) | ring_nf)
 
 /-! ### uniqueness of the root -/
 
